@@ -94,13 +94,13 @@ Definition parse_numeric (t : text) : option cval :=
   let s1 := drop_sign t in
   let '(ip, r1) := span_digits s1 in
   let '(fp, r2) := match r1 with "."%char :: r => span_digits r | _ => ([], r1) end in
-  (* the exponent: 'e' at the end is no number; 'e' without digits is consumed but is not part of the converted text *)
+  (* the exponent: 'e' has to be followed by an optional sign and at least one digit, anything else is no number *)
   let exp_part : option (text * bool) :=
     match r2 with
     | c :: r => if (Ascii.eqb c "e" || Ascii.eqb c "E")%bool then
                   match r with
                   | [] => None
-                  | _ => let '(ed, r5) := span_digits (drop_sign r) in Some (r5, negb (is_nil ed))
+                  | _ => let '(ed, r5) := span_digits (drop_sign r) in if is_nil ed then None else Some (r5, true)
                   end
                 else Some (r2, false)
     | [] => Some (r2, false)
